@@ -568,3 +568,55 @@ func buildRun(args []string) error {
 	}
 	return nil
 }
+
+func init() { commands["parse-events"] = parseEvents }
+
+// parse-events <cases.json>: records the parse-context operations of every parse through the verif hooks, in the event
+// syntax of ParserMachine.tla's evs variable: "id\tk\tindex\tevents".
+func parseEvents(args []string) error {
+	f, err := os.Open(args[0])
+	if err != nil {
+		return err
+	}
+	defer f.Close()
+	var gs []gGrammar
+	if err := json.NewDecoder(bufio.NewReaderSize(f, 1<<20)).Decode(&gs); err != nil {
+		return err
+	}
+	w := bufio.NewWriterSize(os.Stdout, 1<<20)
+	defer w.Flush()
+	var sb strings.Builder
+	participle.VerifSink = func(ev string, a, b, c, d int) {
+		switch ev {
+		case "branch":
+			fmt.Fprintf(&sb, "b,%d,%d;", a, b)
+		case "accept":
+			fmt.Fprintf(&sb, "a,%d,%d,%d,%d;", a, b, c, d)
+		case "stop":
+			fmt.Fprintf(&sb, "s,%d,%d,%d;", a, b, c)
+		case "defer":
+			fmt.Fprintf(&sb, "d,%d,%d,%d;", a, b, c)
+		case "apply":
+			fmt.Fprintf(&sb, "p,%d;", a)
+		}
+	}
+	defer func() { participle.VerifSink = nil }()
+	for gi := range gs {
+		g := &gs[gi]
+		for _, k := range g.Ks {
+			b, err := build(g, k)
+			if err != nil {
+				continue
+			}
+			for i, in := range g.Inputs {
+				sb.Reset()
+				func() {
+					defer func() { _ = recover() }()
+					_, _ = b.p.ParseString("fn", in.S, participle.AllowTrailing(b.trailing))
+				}()
+				fmt.Fprintf(w, "%s\t%d\t%d\t%s\n", g.ID, k, i, sb.String())
+			}
+		}
+	}
+	return nil
+}
